@@ -54,6 +54,9 @@ def build(spec, with_graph=True, stale_prebind=True):
         # ids and different poses (as after use in an earlier graph); constructing the graph must re-bind it
         for ed in edges:
             ed.vertices = [_stale_vertex(i, kb[i], spec) for i in ed.vertex_ids]
+    for what, vi, field, ei in spec.get("share", []):
+        # object reuse: the vertex's pose object IS the edge's measurement / offset object
+        verts[vi].pose = edges[ei].estimate if field == "estimate" else edges[ei].offset
     g = I.Graph(edges, verts) if with_graph else None
     return g, verts, edges
 
@@ -93,4 +96,7 @@ def optimize(g, **kw):
     with warnings.catch_warnings():
         warnings.simplefilter("ignore")
         with np.errstate(all="ignore"):
+            if all(k in kw for k in ("tol", "max_iter", "fix_first_pose", "verbose")) and len(kw) == 4:
+                # the documented positional order: optimize(tol, max_iter, fix_first_pose, verbose)
+                return g.optimize(kw["tol"], kw["max_iter"], kw["fix_first_pose"], kw["verbose"])
             return g.optimize(**kw)
